@@ -270,11 +270,11 @@ func c12Sessions(c *Ctx) {
 		return ok && fr.Type == "home.Auth" && fr.Field == "sessions"
 	}
 	okRet := func(in ssa.Instruction) bool {
-		ret, ok := in.(*ssa.Return)
+		ret, ok := core.AsReturn(in)
 		if !ok || len(ret.Results) != 1 {
 			return false
 		}
-		v := core.ResolveLocalLoad(ret.Results[0])
+		v := core.ResolveLocalLoad(core.Res(ret, 0))
 		cst, isC := v.(*ssa.Const)
 		if !isC {
 			return true
